@@ -51,7 +51,7 @@ class Ctx:
     def release(self, cfg=None):
         k = config_name(cfg)
         self._an.pop(k, None)
-        for s in ("O0", "ship", "raw"):
+        for s in ("O0", "ship", "shipinl", "raw"):
             self._prog.pop((k, s), None)
             self.ws.drop(cfg, s)
 
